@@ -10,6 +10,9 @@ CHECKS = {
  "C09": dict(engine="B", category="translation_validation", technique="SMT (z3, linear real arithmetic): two unsat queries per program prove And(flat equations) <=> And(connection-set reference equations); connect sequences enumerated exhaustively",
    text="For every ordered sequence of connect clauses within the bound, over inside and outside connectors with potential and flow variables, z3 proves that the equations produced by the real flatten/expand_connectors have exactly the solutions of Modelica connection-set semantics (union-find oracle), for all real values of all variables.",
    note="Oracle vk/ref/connect_ref.py; components have no own equations; bounded number of connectors/clauses (stated in evidence).", ref="4/C09"),
+ "C10": dict(engine="A", category="model_checking", technique="CrossHair symbolic execution (z3) of the real flatten -> annotate_states -> Generator.exitClass with the subject variable's prefix flags symbolic; 'Confirmed over all paths' per shard; every prefix spelling additionally pushed through the real parser as text",
+   text="For every type {Real,Integer,Boolean,String} x placement {top-level, nested} x der() usage {none, direct, inside an expression, initial equation, from the enclosing model} x declaration order (one shard each) and ALL combinations of flow / variability / causality prefixes (symbolic): the variable appears in exactly one category, the one given by constant > parameter > top-level input > differentiated > algebraic (String constants/parameters in the string lists), each state has exactly one der variable, outputs are exactly the output-prefixed states/algebraics, order is kept inside one class instance.",
+   note="One subject variable with fixed neighbours; Modelica-illegal combinations excluded by precondition; the prefix list is written into the parsed template and validated against the real parser's output for every spelling.", ref="4/C10"),
  "C11": dict(engine="B", category="translation_validation", technique="SMT equivalence (z3, NRA+UF) of the real residual Function's SX DAG against a reference semantics of the flat AST; text family enumerated, all numeric values symbolic",
    text="For every enumerated model (all ordered pairs of C11 operators in both nestings, array subscripts/slices/for-loops/if-equations/functions, plus the repository's models) z3 proves, for all real values of time/states/derivatives/algebraics/inputs/constants/parameters, that each element of the real dae/initial residual Function equals lhs-rhs of the flat equation under the Modelica reference semantics. unsat = holds at every numeric point, which no finite set of evaluation points can establish.",
    note="Trusted: CasADi expand()/evaluation, z3, the reference semantics vk/smt/ast2z3.py (validated on the repository's test models). Real arithmetic (not IEEE), elementary functions uninterpreted, divisors assumed non-zero. Program structure is a bounded enumerated family.", ref="4/C11"),
@@ -25,6 +28,9 @@ CHECKS = {
  "C16": dict(engine="B", category="translation_validation", technique="SMT equivalence (z3) of the merged attributes, made symbolic through the real code by declaring them as parameters, against the specification (intersection with sign swap, max nominal, or fixed, start rule)",
    text="Alias classes of 2-4 (thorough 5) variables, every sign pattern, canonical state/input/algebraic, every subset of explicit starts: the real detect_aliases merging produces CasADi expressions in the attribute parameters and z3 proves them equal to the specification for all parameter values (Variable objects and metadata function).",
    note="INF modelled as a constant above every attribute parameter; fixed flags literal.", ref="4/C16"),
+ "C17": dict(engine="C", category="model_checking", technique="SMT (z3) over a symbolic interpretation of the Python AST of alias_relation.py: one add/remove/copy/observer call from an ARBITRARY pre-state satisfying a representation invariant, symbolic arguments; unsat of each negated obligation (no exception, invariant preserved, signed-union-find specification, frame); sat answers replayed through an exhaustive exploration of the real class",
+   text="Universe of 3 base names x 2 signs (thorough attempts 4): z3 proves Inv(empty); for add(a,b) under the property's premise, remove(a), copy() and the observers aliases/canonical_signed/canonical_variables/__iter__ with symbolic arguments: no exception, invariant preserved, the signed partition changes exactly as the signed union-find specification says, observers agree with the abstraction, copy() returns fresh dicts and set objects and no operation touches set objects it does not own (=> copies evolve independently). One inductive step covers histories of any length over the universe.",
+   note="Loops over sets unrolled in two orders; names outside {x, -x} are an error obligation; translator validated by pushing every reachable real transition (N=3, fixpoint) through the encoding; sat results are only reported after a failing real history is found.", ref="4/C17"),
  "C18": dict(engine="B", category="translation_validation", technique="SMT equivalence (z3) of expanded vs unexpanded residual/metadata/delay Functions under the renaming x[i,j] -> element; naming rule checked structurally",
    text="For arrays (1-D, 2-D, size 1), arrays of components holding arrays, derivative arrays and delayed arrays, both code paths of expand_vectors: names/order/outputs/delay states checked against the naming rule, and z3 proves expanded residuals, delay arguments and metadata rows equal to the unexpanded ones under the renaming for all values.",
    note="Bounded model family; CasADi expand() trusted.", ref="4/C18"),
